@@ -9,7 +9,7 @@ from . import c04
 LEVEL = 'exploration'
 TECHNIQUE = 'offline checker over the tagged operation log (pong payloads, order and write-before-yield tags) with injected write faults'
 BUDGET_S = {'quick': 30, 'thorough': 200}
-REQUIRED = {'all': ['oracle.pongs_matched', 'oracle.pings_vs_ground_truth', 'oracle.auto_pong_off_runs', 'oracle.closing_runs', 'oracle.pong_write_fault_runs',
+REQUIRED = {'all': ['oracle.streams_ending_in_violation', 'oracle.pongs_matched', 'oracle.pings_vs_ground_truth', 'oracle.auto_pong_off_runs', 'oracle.closing_runs', 'oracle.pong_write_fault_runs',
                     'oracle.order_vs_app_writes_checked']}
 RULE = ('streams biased to Pings (every payload length 0..125, all byte values, several per read, between '
         'fragments, back to back) x auto_pong on/off x application policy (passive / send at every Ping / '
@@ -61,7 +61,20 @@ def cases(tier, seed, i, n):
                        cutseed=rnd.randrange(1 << 30), close_at=rnd.randint(2, 10) if 'close' in pol else None,
                        fault=[rnd.randint(0, 3), rnd.choice(('reset', 'pipe', 'timeout', 'runtime'))] if idx % 3 == 0 else None,
                        final_close=rnd.random() < 0.3)
+            if idx % 7 == 3:
+                yield dict(msgs=msgs, pol='passive', auto=True, seg=('coalesced', 'perframe', 'random')[idx % 3], cutseed=idx, close_at=None,
+                           fault=None, final_close=False, violation=sorted(VIOLATIONS)[idx % len(VIOLATIONS)])
     return gen.shard(allcases(), i, n)
+
+
+VIOLATIONS = {
+    'reserved-opcode': refws.enc_frame(3, b'x'),
+    'rsv1': refws.enc_frame(1, b'x', rsv=4),
+    'ping-126': refws.enc_frame(9, b'p' * 126),
+    'fragmented-ping': refws.enc_frame(9, b'', fin=0),
+    'masked': refws.enc_frame(1, b'm', mask=b'\x01\x02\x03\x04'),
+    'bad-utf8': refws.enc_frame(1, b'\xff'),
+}
 
 
 def execute(case, with_disturbance=True):
@@ -69,6 +82,10 @@ def execute(case, with_disturbance=True):
     if case.get('final_close'):
         msgs = msgs + [dict(k='close', code=1000, reason='')] + [dict(k='ping', p=['lit', b'after-close'])]
     frames, expected, _ = gen.frames_of(msgs)
+    if case.get('violation'):
+        # a frame that violates the protocol right behind the last message (same read when coalesced):
+        # every Ping before it was received while the connection was fine and is due its Pong
+        frames = frames + [VIOLATIONS[case['violation']]]
     stream = b''.join(frames)
     hl = c04.HS_LEN[False]
     seg = case['seg']
@@ -115,6 +132,8 @@ def _faulting_session(fault):
 
 def run_case(case, acc):
     run, w, expected = execute(case)
+    if case.get('violation'):
+        acc.count2('oracle', 'streams_ending_in_violation')
     key, detail = judge(case, run, w, acc)
     if key is None:
         # ground truth: every Ping the server sent before its own Close is yielded as a Ping event,
